@@ -30,8 +30,10 @@ pub enum Kind {
     Single(usize),
     /// every draw differs from the base script and from the other disjoint scripts
     Disjoint,
-    /// informational: a draw forced to zero
+    /// a draw forced to zero
     Zero(usize),
+    /// base draws; the RNG's fallible interface refuses n calls at this draw position
+    Outage(usize),
 }
 
 #[derive(Clone, Debug)]
@@ -39,12 +41,14 @@ pub struct Script {
     pub name: String,
     pub draws: [Fe; 14],
     pub kind: Kind,
+    /// entropy outages of `try_fill_bytes`: (draw position, refused calls)
+    pub faults: Vec<(usize, usize)>,
 }
 
 pub fn scripts() -> Vec<Script> {
     let base = m3::base_draws(100);
     let mut rho = Rho::new(seed(), 6006);
-    let mut out = vec![Script { name: "base".into(), draws: base, kind: Kind::Base }];
+    let mut out = vec![Script { name: "base".into(), draws: base, kind: Kind::Base, faults: vec![] }];
     for i in 0..14 {
         let mut r = rho.next_fe();
         while r == zero() || base.contains(&r) {
@@ -53,18 +57,18 @@ pub fn scripts() -> Vec<Script> {
         for (nm, v) in [("1", one()), ("-1", neg1()), ("rho", r)] {
             let mut d = base;
             d[i] = v;
-            out.push(Script { name: format!("draw{}={}", i, nm), draws: d, kind: Kind::Single(i) });
+            out.push(Script { name: format!("draw{}={}", i, nm), draws: d, kind: Kind::Single(i), faults: vec![] });
         }
     }
     for i in 0..14 {
         for j in i + 1..14 {
             let mut d = base;
             d[j] = base[i];
-            out.push(Script { name: format!("eq{}-{}", i, j), draws: d, kind: Kind::Single(j) });
+            out.push(Script { name: format!("eq{}-{}", i, j), draws: d, kind: Kind::Single(j), faults: vec![] });
         }
     }
     for k in 1..=2u64 {
-        out.push(Script { name: format!("disjoint{}", k), draws: m3::base_draws(100 + k), kind: Kind::Disjoint });
+        out.push(Script { name: format!("disjoint{}", k), draws: m3::base_draws(100 + k), kind: Kind::Disjoint, faults: vec![] });
     }
     // a draw that is zero: a degenerate top blinder may make the prover fail
     // (excused), but whenever a proof comes out it must have consumed exactly
@@ -72,16 +76,24 @@ pub fn scripts() -> Vec<Script> {
     for i in 0..14 {
         let mut d = base;
         d[i] = zero();
-        out.push(Script { name: format!("zero{}", i), draws: d, kind: Kind::Zero(i) });
+        out.push(Script { name: format!("zero{}", i), draws: d, kind: Kind::Zero(i), faults: vec![] });
     }
     // both blinders of one polynomial zero (it is committed unmasked), and all 14
     for (i, j) in [(0usize, 1usize), (2, 3), (4, 5), (6, 7), (11, 12)] {
         let mut d = base;
         d[i] = zero();
         d[j] = zero();
-        out.push(Script { name: format!("zero{}+{}", i, j), draws: d, kind: Kind::Zero(i) });
+        out.push(Script { name: format!("zero{}+{}", i, j), draws: d, kind: Kind::Zero(i), faults: vec![] });
     }
-    out.push(Script { name: "zero-all".into(), draws: [zero(); 14], kind: Kind::Zero(0) });
+    out.push(Script { name: "zero-all".into(), draws: [zero(); 14], kind: Kind::Zero(0), faults: vec![] });
+    // entropy outages: the RNG's fallible interface (`try_fill_bytes`) refuses 3 / 8 calls in
+    // a row at one draw position while `fill_bytes` would have blocked and succeeded; the
+    // prover must still consume exactly the 14 scripted draws (same proof as the base script)
+    for i in 0..14 {
+        for n in [3usize, 8] {
+            out.push(Script { name: format!("outage{}x{}", i, n), draws: base, kind: Kind::Outage(i), faults: vec![(i, n)] });
+        }
+    }
     out
 }
 
@@ -273,13 +285,14 @@ pub struct CaseOut {
 fn run_case(c: &Circ, wi: usize, s: &Script) -> CaseOut {
     // own clone: the snapshot cell inside a Prog must not be shared by workers
     let prog = &c.witnesses[wi].with_overrides(vec![]);
-    let (real, pis, calls) = match m3::real_prove(&c.prover, prog, &s.draws, Version::V3) {
+    let (real, pis, calls) = match m3::real_prove_faulty(&c.prover, prog, &s.draws, Version::V3, &s.faults) {
         Ok((b, p, calls)) => (Ok(b), p, calls),
         Err(e) => (Err(e), vec![], vec![]),
     };
     // the RNG log is wanted even when the prover fails: prove again to collect it
     let calls = if real.is_err() {
         let mut rng = crate::rng::ScriptedRng::new(s.draws.to_vec());
+        rng.faults = s.faults.clone();
         let _ = c.prover.prove(&mut rng, prog);
         rng.calls
     } else {
@@ -375,9 +388,8 @@ fn judge(c: &Circ, s: &Script, base_draws: &[Fe; 14], o: &CaseOut, base: &CaseOu
     let mut f = Vec::new();
     // (a) RNG consumption
     *clauses += 1;
-    let want: Vec<Call> = (0..14).map(|_| Call::FillBytes(64)).collect();
-    if o.calls != want {
-        f.push(Finding { clause: "clause-a", what: format!("RNG calls {:?}, expected 14 x fill_bytes(64)", summarize_calls(&o.calls)) });
+    if !draws_are_14(&o.calls) {
+        f.push(Finding { clause: "clause-a", what: format!("RNG calls {:?}, expected exactly 14 successful 64-byte draws and nothing else", summarize_calls(&o.calls)) });
     }
     let bytes = match &o.real {
         Ok(b) => b,
@@ -505,6 +517,14 @@ fn judge(c: &Circ, s: &Script, base_draws: &[Fe; 14], o: &CaseOut, base: &CaseOu
     f
 }
 
+/// Exactly 14 successful 64-byte draws (through `fill_bytes` or a successful
+/// `try_fill_bytes`) and no other call; refused `try_fill_bytes` calls are the
+/// environment's doing and do not count.
+fn draws_are_14(calls: &[Call]) -> bool {
+    let ok: Vec<&Call> = calls.iter().filter(|c| !matches!(c, Call::TryFillErr(_))).collect();
+    ok.len() == 14 && ok.iter().all(|c| matches!(c, Call::FillBytes(64) | Call::TryFill(64)))
+}
+
 fn summarize_calls(calls: &[Call]) -> String {
     let fills = calls.iter().filter(|c| matches!(c, Call::FillBytes(64))).count();
     let other: Vec<&Call> = calls.iter().filter(|c| !matches!(c, Call::FillBytes(64))).take(4).collect();
@@ -517,7 +537,7 @@ fn case_json(c: &Circ, wi: usize, s: &Script) -> serde_json::Value {
 
 pub fn main(tier: Tier, replay: Option<serde_json::Value>) -> i32 {
     let mut run = Run::new("C06", tier, "model_checking");
-    run.rule = "cases = circuits x witnesses x RNG scripts (base; each of the 14 draws replaced by 1, -1, rho; every pair of draws forced equal; two fully disjoint scripts; each of the 14 draws replaced by zero: draw count and equality with M3 whenever a proof is produced); every case runs the real prover under the scripted RNG, the reference prover M3 on the parsed keys, and the masking formulas from the witness table; non-trivial = distinct (circuit, witness, script) whose real proof was produced and judged".into();
+    run.rule = "cases = circuits x witnesses x RNG scripts (base; each of the 14 draws replaced by 1, -1, rho; every pair of draws forced equal; two fully disjoint scripts; each of the 14 draws replaced by zero: draw count and equality with M3 whenever a proof is produced; entropy outages of the RNG's fallible interface at every draw position: same proof as without the outage); every case runs the real prover under the scripted RNG, the reference prover M3 on the parsed keys, and the masking formulas from the witness table; non-trivial = distinct (circuit, witness, script) whose real proof was produced and judged".into();
     let circs = match circuits(tier) {
         Ok(c) => c,
         Err(e) => {
@@ -526,7 +546,7 @@ pub fn main(tier: Tier, replay: Option<serde_json::Value>) -> i32 {
         }
     };
     let scr = scripts();
-    let mandatory = scr.iter().filter(|s| !matches!(s.kind, Kind::Zero(_)) && s.kind != Kind::Disjoint).count();
+    let mandatory = scr.iter().filter(|s| !matches!(s.kind, Kind::Zero(_) | Kind::Outage(_)) && s.kind != Kind::Disjoint).count();
     run.bound("scripts_mandatory", json!(mandatory));
     run.bound("scripts_total", json!(scr.len()));
     run.bound("circuits", json!(circs.iter().map(|c| format!("{} (n={}, constraints={}, witnesses={})", c.name, c.pd.size, c.pd.constraints, c.witnesses.len())).collect::<Vec<_>>()));
@@ -600,6 +620,32 @@ pub fn main(tier: Tier, replay: Option<serde_json::Value>) -> i32 {
                 continue;
             }
         }
+        if let Kind::Outage(i) = s.kind {
+            clauses += 2;
+            run.traces_validated += 1;
+            run.nontrivial(fnv(format!("{}|{}|{}", c.name, wi, s.name).as_bytes()));
+            let refused = o.calls.iter().filter(|c| matches!(c, Call::TryFillErr(_))).count();
+            run.outcome(if refused == 0 { "outage:fallible-interface-not-used" } else { "outage:refusals-seen" });
+            let problem = match (&o.real, &base.real) {
+                (Err(e), _) => Some(format!("prover failed: {}", e)),
+                (Ok(_), _) if !draws_are_14(&o.calls) => Some(format!("RNG calls {}, expected exactly 14 successful 64-byte draws", summarize_calls(&o.calls))),
+                (Ok(a), Ok(b)) if a != b => Some("the proof differs from the proof for the same 14 draws without the outage (a masking scalar did not come from its draw)".to_string()),
+                _ => None,
+            };
+            match problem {
+                None => run.outcome("outage:same-proof-as-base"),
+                Some(what) => {
+                    run.outcome("outage:fail");
+                    let key = format!("outage/circuit={}", c.name);
+                    let cnt = reported.entry(key.clone()).or_insert(0);
+                    if *cnt < 3 || replay.is_some() {
+                        *cnt += 1;
+                        run.violation(&format!("{}/draw={}", key, DRAW_NAMES[i]), &format!("{} witness {} script {}: {}", c.name, wi, s.name, what), case_json(c, *wi, s));
+                    }
+                }
+            }
+            continue;
+        }
         if let Kind::Zero(i) = s.kind {
             // informational only
             let outcome = match (&o.real, &o.verified) {
@@ -617,8 +663,7 @@ pub fn main(tier: Tier, replay: Option<serde_json::Value>) -> i32 {
                 clauses += 2;
                 run.traces_validated += 1;
                 run.nontrivial(fnv(format!("{}|{}|{}", c.name, wi, s.name).as_bytes()));
-                let want: Vec<Call> = (0..14).map(|_| Call::FillBytes(64)).collect();
-                if o.calls != want {
+                if !draws_are_14(&o.calls) {
                     run.outcome("clause-a:fail");
                     run.violation(&format!("clause-a/calls/circuit={}/script={}", c.name, s.name), &format!("{} witness {} script {}: RNG calls {}, expected 14 x fill_bytes(64) (a zero draw is a draw like any other)", c.name, wi, s.name, summarize_calls(&o.calls)), case_json(c, *wi, s));
                 } else if eq == "m3-differs" {
